@@ -22,6 +22,7 @@ V11 both reference evaluators compute xor / and / not of exactly the wires the g
 V10 cross-reference: call arguments are lowered in the caller's scope before any parameter is bound (C14-E7)
 V14 cross-reference: the optimiser's rewrites and the sweep keep the function (C04 O1, O4 - O10)
 V15 cross-reference: range patterns compare with both bounds, compound patterns test each field's own bits (C08 M3 / M4)
+V16 cross-reference: accepted matches are exhaustive (struct pattern fields aligned by name, number patterns inside the matched type: C17 T14 / T15)
 """
 from .. import mir
 from ..core import AnchorMissing, Finding, RuleResult
@@ -1137,5 +1138,19 @@ def rule_v15(ctx):
     return res
 
 
+def rule_v16(ctx):
+    """Cross-reference: a match evaluates to the arm of the first matching pattern only if some pattern matches: the exhaustiveness
+    check must line up struct fields by name (C17-T14) and number patterns must be values of the matched type (C17-T15);
+    otherwise an accepted match has no matching arm for some value and evaluates to 0."""
+    from . import C17
+    res = RuleResult("V16", "accepted matches are exhaustive: struct fields aligned by name, number patterns inside the matched type (cross-reference to C17-T14 / T15)")
+    for sub in (C17.rule_t14(ctx), C17.rule_t15(ctx)):
+        for x in sub.findings:
+            res.bad(Finding("V16", x.fn, x.site, x.message, x.span))
+        if not sub.findings:
+            res.ok({"verdict": "C17-%s holds" % sub.rule})
+    return res
+
+
 def run(ctx):
-    return ctx.run_rules([rule_v13, rule_v12, rule_v11, rule_v1, rule_v2, rule_v3, rule_v4, rule_v5, rule_v6, rule_v7, rule_v8, rule_v9, rule_v10, rule_v14, rule_v15])
+    return ctx.run_rules([rule_v13, rule_v12, rule_v11, rule_v1, rule_v2, rule_v3, rule_v4, rule_v5, rule_v6, rule_v7, rule_v8, rule_v9, rule_v10, rule_v14, rule_v15, rule_v16])
